@@ -743,12 +743,17 @@ type ctlEnv struct {
 	ks    *testingutils.TestKeySet
 	id    []byte
 	lines []string
+	// height of the most recently (successfully) started instance = the runner's running instance
+	started bool
+	running uint64
 }
 
 var logger = zap.NewNop()
 var debugLatency = os.Getenv("VERIF_TIMER_DEBUG") != ""
 
-func newCtl() *ctlEnv {
+// newCtl builds a real controller; capacity > 0 replaces the instance container by one of that capacity
+// (as qbfttesting.NewTestingQBFTController does), 0 keeps the production container of NewController.
+func newCtl(capacity int) *ctlEnv {
 	ks := testingutils.Testing4SharesSet()
 	conf := qbfttesting.TestingConfig(logger, ks, spectypes.BNRoleAttester)
 	id := spectypes.NewMsgID(testingutils.TestingSSVDomainType, ks.ValidatorPK.Serialize(), spectypes.BNRoleAttester)
@@ -756,6 +761,9 @@ func newCtl() *ctlEnv {
 	e.timer = conf.Timer.(*roundtimer.TestQBFTTimer)
 	e.net = conf.Network.(*testingutils.TestingNetwork)
 	e.ctrl = controller.NewController(e.id, qbfttesting.TestingShare(ks), conf, false)
+	if capacity > 0 {
+		e.ctrl.StoredInstances = make(controller.InstanceContainer, 0, capacity)
+	}
 	return e
 }
 
@@ -805,6 +813,9 @@ func (e *ctlEnv) do(run *hx.Run, line string) {
 	case "start":
 		showBc = false
 		err = e.ctrl.StartNewInstance(logger, specqbft.Height(h), []byte{1, 2, 3, 4})
+		if err == nil {
+			e.started, e.running = true, h
+		}
 	case "decide":
 		_, err = e.ctrl.ProcessMsg(logger, e.decidedMsg(h, r))
 	case "timeout", "badtimeout":
@@ -817,6 +828,8 @@ func (e *ctlEnv) do(run *hx.Run, line string) {
 			switch {
 			case in == nil:
 				stale, cls = true, "unknown-height"
+			case !e.started || h != e.running: // not the instance most recently started: "another height"
+				stale, cls = true, "other-height"
 			case specqbft.Round(r) < in.State.Round:
 				stale, cls = true, "lower-round"
 			case in.State.Decided:
@@ -836,7 +849,7 @@ func (e *ctlEnv) do(run *hx.Run, line string) {
 		err = e.ctrl.OnTimeout(logger, msg)
 		after := fmt.Sprintf("%s bc=%d tm=%d:%d", e.snapshot(), len(e.net.BroadcastedMsgs), e.timer.State.Timeouts, e.timer.State.Round)
 		if stale && before != after {
-			run.Violate("C17/stale-timeout-changed-state", fmt.Sprintf("timeout event class %s changed the controller: %s -> %s", cls, before, after), e.lines...)
+			run.Violate("C17/stale-timeout-changed-state:"+cls, fmt.Sprintf("timeout event class %s changed the controller: %s -> %s", cls, before, after), e.lines...)
 		}
 		run.Tag("ctl/timeout/" + cls)
 		run.Seen("ctl|timeout|" + cls + "|" + b01(err != nil))
@@ -854,8 +867,8 @@ func (e *ctlEnv) do(run *hx.Run, line string) {
 	run.Emit(line, fmt.Sprintf("e=%s bc=%s tm=%d:%d st=%s", b01(err != nil), bc, e.timer.State.Timeouts, e.timer.State.Round, e.snapshot()))
 }
 
-func startCtl(run *hx.Run) *ctlEnv {
-	e := newCtl()
+func startCtl(run *hx.Run, capacity int) *ctlEnv {
+	e := newCtl(capacity)
 	line := fmt.Sprintf("reset ctl cap=%d cutoff=%d", cap(e.ctrl.StoredInstances), instance.CutoffRound)
 	e.lines = []string{line}
 	run.Emit(line, "ok")
@@ -863,8 +876,8 @@ func startCtl(run *hx.Run) *ctlEnv {
 }
 
 func genCtlCase(run *hx.Run, r *hx.Rng) {
-	e := startCtl(run)
-	n := 6 + r.Intn(20)
+	e := startCtl(run, r.Pick(0, 0, 1, 3, 3, 4, 8, 1024))
+	n := 8 + r.Intn(25)
 	cur := uint64(r.Intn(5))
 	started := false
 	roundOf := func(h uint64) uint64 {
@@ -907,6 +920,18 @@ func genCtlCase(run *hx.Run, r *hx.Rng) {
 			}
 		case x < 35:
 			e.do(run, "badtimeout")
+		case x < 55 && len(e.ctrl.StoredInstances) > 0: // a timeout aimed at ANY stored instance (old, decided-created, running), around its round
+			in := e.ctrl.StoredInstances[r.Intn(len(e.ctrl.StoredInstances))]
+			rr := uint64(in.State.Round)
+			switch r.Intn(4) {
+			case 0:
+				if rr > 0 {
+					rr--
+				}
+			case 1:
+				rr += uint64(1 + r.Intn(2))
+			}
+			e.do(run, fmt.Sprintf("timeout h=%d r=%d", in.State.Height, rr))
 		case x < 42: // a long chain of genuine timeouts (reaches the cutoff round)
 			k := 3 + r.Intn(16)
 			for j := 0; j < k; j++ {
@@ -957,13 +982,13 @@ func replay(run *hx.Run, lines []string, stats map[string]int) {
 			emitTimerCase(run, tc, stable(tc, []*tRun{runTimerCase(tc), runTimerCase(tc)}, stats))
 			i = j - 1
 		case fs[0] == "reset" && len(fs) > 1 && fs[1] == "ctl":
-			e = startCtl(run)
+			e = startCtl(run, int(parseKV(fs)["cap"]))
 		case fs[0] == "dur":
 			kv := parseKV(fs)
 			doDur(run, cfg{role: kv["role"], slot: kv["slot"], thr: uint64(kv["thr"]), quick: kv["quick"], slow: kv["slow"]}, uint64(kv["r"]))
 		default:
 			if e == nil {
-				e = startCtl(run)
+				e = startCtl(run, 0)
 			}
 			e.do(run, lines[i])
 		}
